@@ -22,3 +22,19 @@ package api
 //@   ghostvar applyFailed = false
 //@   requires e.Lock != nil && e.Worlds != nil
 //@   ensures implies(applied, (result1 != nil) == applyFailed)
+
+// ---- C23: building a histogram never crashes on a collection that fails -----------------
+// The two constructors return (nil, err) on every error path and a feature otherwise
+// (read off their return statements; assumed here, they run maps and closures outside
+// the verifier's subset).
+//@ func newBucketedHistogram
+//@   trusted
+//@   ensures (result0 == nil) == (result1 != nil)
+//@ func newOriginDestinationHistogram
+//@   trusted
+//@   ensures (result0 == nil) == (result1 != nil)
+//@ func isOriginDestinationCollection
+//@   trusted
+//@ func NewHistogramFromCollection
+//@   requires c != nil
+//@   ensures (result0 == nil) == (result1 != nil)
